@@ -19,6 +19,19 @@ func concStr(v value, what string) string {
 	panic(unsupported(what + " on a symbolic string"))
 }
 
+// lexStr is concStr for the regexp intrinsics: a registered shadow twin stands in for a partly
+// symbolic subject.
+func (i *interpreter) lexStr(v value, what string) string {
+	if s, ok := v.(symstr); ok {
+		if _, conc := normStr(s.b).(string); !conc {
+			if twin, has := i.shadowOf(s.b); has {
+				return twin
+			}
+		}
+	}
+	return concStr(v, what)
+}
+
 func concBytes(v value, what string) []byte {
 	x := v.([]value)
 	bs := make([]byte, len(x))
@@ -87,22 +100,22 @@ func init() {
 	reg("(*regexp.Regexp).NumSubexp", func(fr *frame, a []value) value { return hostRe(a[0]).NumSubexp() })
 	reg("(*regexp.Regexp).SubexpNames", func(fr *frame, a []value) value { return stringsVal(hostRe(a[0]).SubexpNames()) })
 	reg("(*regexp.Regexp).FindStringSubmatchIndex", func(fr *frame, a []value) value {
-		return intsVal(hostRe(a[0]).FindStringSubmatchIndex(concStr(a[1], "regexp match")))
+		return intsVal(hostRe(a[0]).FindStringSubmatchIndex(fr.i.lexStr(a[1], "regexp match")))
 	})
 	reg("(*regexp.Regexp).FindStringIndex", func(fr *frame, a []value) value {
-		return intsVal(hostRe(a[0]).FindStringIndex(concStr(a[1], "regexp match")))
+		return intsVal(hostRe(a[0]).FindStringIndex(fr.i.lexStr(a[1], "regexp match")))
 	})
 	reg("(*regexp.Regexp).FindStringSubmatch", func(fr *frame, a []value) value {
-		return stringsVal(hostRe(a[0]).FindStringSubmatch(concStr(a[1], "regexp match")))
+		return stringsVal(hostRe(a[0]).FindStringSubmatch(fr.i.lexStr(a[1], "regexp match")))
 	})
 	reg("(*regexp.Regexp).FindString", func(fr *frame, a []value) value {
-		return hostRe(a[0]).FindString(concStr(a[1], "regexp match"))
+		return hostRe(a[0]).FindString(fr.i.lexStr(a[1], "regexp match"))
 	})
 	reg("(*regexp.Regexp).FindAllString", func(fr *frame, a []value) value {
-		return stringsVal(hostRe(a[0]).FindAllString(concStr(a[1], "regexp match"), int(asInt64(a[2]))))
+		return stringsVal(hostRe(a[0]).FindAllString(fr.i.lexStr(a[1], "regexp match"), int(asInt64(a[2]))))
 	})
 	reg("(*regexp.Regexp).FindAllStringSubmatch", func(fr *frame, a []value) value {
-		ms := hostRe(a[0]).FindAllStringSubmatch(concStr(a[1], "regexp match"), int(asInt64(a[2])))
+		ms := hostRe(a[0]).FindAllStringSubmatch(fr.i.lexStr(a[1], "regexp match"), int(asInt64(a[2])))
 		if ms == nil {
 			return []value(nil)
 		}
@@ -113,7 +126,7 @@ func init() {
 		return out
 	})
 	reg("(*regexp.Regexp).FindAllStringSubmatchIndex", func(fr *frame, a []value) value {
-		ms := hostRe(a[0]).FindAllStringSubmatchIndex(concStr(a[1], "regexp match"), int(asInt64(a[2])))
+		ms := hostRe(a[0]).FindAllStringSubmatchIndex(fr.i.lexStr(a[1], "regexp match"), int(asInt64(a[2])))
 		if ms == nil {
 			return []value(nil)
 		}
@@ -124,7 +137,7 @@ func init() {
 		return out
 	})
 	reg("(*regexp.Regexp).FindAllStringIndex", func(fr *frame, a []value) value {
-		ms := hostRe(a[0]).FindAllStringIndex(concStr(a[1], "regexp match"), int(asInt64(a[2])))
+		ms := hostRe(a[0]).FindAllStringIndex(fr.i.lexStr(a[1], "regexp match"), int(asInt64(a[2])))
 		if ms == nil {
 			return []value(nil)
 		}
